@@ -25,7 +25,7 @@ CLAIM = {
              "the crop directory can be removed iff the documented effective clean_up is true, that every removal is preceded on all paths by the normal completion of the "
              "result gather (the Reaper's with-block and its exhaustion check) and of the harvester / sampler sync, that no removal is reachable from their failure, and that no "
              "call that may raise follows a removal (interprocedural: callee summaries per abstract valuation). Also the readiness gate and the load-error propagation "
-             "(no except around the result load continues with a default). These are necessary conditions of C12; the merge/save semantics themselves are library behaviour."),
+             "(no except around the result load continues with a default); (R4) the Sampler's in-memory table is replaced only after the file was written; (R5) nothing reachable from the Reaper's load path or a progress query removes a file, so a failing or partial reap leaves every grown result in place. These are necessary conditions of C12; the merge/save semantics themselves are library behaviour."),
     "note": "Trusted base: CPython executes the parsed ast; with-statement semantics (__exit__ runs, exceptions propagate); the decision table is the one in the Crop.reap docstring. The analysis is path-insensitive inside library calls.",
     "technique": "static analysis: truthiness-partitioned interprocedural dataflow (callee effect summaries) + CFG must-complete-before rules over all flag valuations",
 }
